@@ -1,15 +1,17 @@
 """C07 — runtime assertions pass only when the asserted relation really holds."""
+import collections
 import itertools
 import json
 import os
 import sys
 
-from common import VERIF, CorrResult, Failure, run_check, use_repo
+from common import VERIF, CorrResult, Failure, canon, load_known_findings, run_check, use_repo
 
 use_repo()
 
 import assertions_common as ac  # noqa: E402
 import assertions_gen as ag  # noqa: E402
+import assertions_lazy as al  # noqa: E402
 from translate_assertions import translate  # noqa: E402
 
 PROVED = [
@@ -66,6 +68,13 @@ NOTES = [
     "assert_has_attr / assert_has_variable / assert_has_function are outside the property's list",
     "the value loop of equality_test's dict branch iterates a set: when a False and a raising comparison are both "
     "present the model answers 'unmodelled'",
+    "lazy / view / iterator-like operands (range, map, filter, zip, enumerate, reversed, dict views) are not values of the "
+    "Lean universe: equality_test turns the classes of its two tables into a list / a set before anything else, and the "
+    "harness encoder does the same (hard-coded, like the model) before it asks the model about the equality family and about "
+    "equality_test itself; generators, other iterators, deque, OrderedDict views, frozenset, bytes, bytearray, complex, "
+    "Fraction, Decimal and dataclass instances are search-only (oracle: every reading of == - Python's own and 'a lazy "
+    "object stands for its elements' - must agree for a verdict to be demanded; otherwise only the pairing with the "
+    "negation, independence of the argument order and of the wrapping are checked)",
     "dict KEYS under assert_equal: neither the documentation nor the property says whether tolerance/normalisation "
     "extend to keys; for two dicts whose key sets are equal only approximately the oracle abstains and only demands "
     "that assert_equal and assert_not_equal do not both pass or both fail (the code matches the key sets "
@@ -984,6 +993,10 @@ def correspond(rng, tier, driver):
                 "run, lookups, calls that print and fail, output without final newline, nested blocks - every execution "
                 "result and the Sandbox as operand of every output assertion, operands of every other family made "
                 "before / between / after other executions, unit_test after a history, operands made after clear_sandbox; "
+                "VALUE CLASSES: every class named in the tables / isinstance tests of pedal.utilities.comparisons (read from the "
+                "tree) and a dozen more lazy classes x relation of the contents x this side / that side / both / the same "
+                "object x top level / nested x wrapping x both orders, built afresh from a recipe for every call, the model "
+                "asked on the materialised operands; "
                 "real = bool(assertion) and membership in report.feedback, model = Pedal.Assertions.outcome on the generated "
                 "CondExpr; plus CPython's ==,<,in,len,bool,isinstance,hash and pedal's equality_test vs the model relations; "
                 "plus unit_test tables; non-trivial = the assertion is silent (the relation holds) or equality_test is True"
@@ -1064,7 +1077,217 @@ def correspond(rng, tier, driver):
     eqtest_stream(rng, tier, P, driver, res)
     res.results = results
     res.units = units
+    if LAZY:
+        res.lazy = lazy_stream(rng, tier, driver, res)
+        ag.end_history()
+        ac.renew()              # the stream made thousands of executions on the shared sandbox
     return res
+
+
+# --------------------------------------------------------------------------------------
+# operand value classes beyond the plain containers (assertions_lazy): range / map / filter / zip / enumerate / reversed /
+# dict views / generators / iterators / deque / frozenset / bytes / complex, Fraction, Decimal, dataclasses - on one side, on
+# both, nested.  VERIF_C07_LAZY=0 switches the stream off.  Four families of inputs break the property on the unchanged
+# tree (open findings; a failure on such an input has the signature {"family": <name>}, see al.family_of): same-iterator,
+# unhashable-views, decimal-proxy, hashed-iterators.  They are generated by default; VERIF_C07_LAZY_EXTRA=none (or a
+# comma-separated subset) leaves them out.
+LAZY = os.environ.get("VERIF_C07_LAZY", "1") == "1"
+_gate = os.environ.get("VERIF_C07_LAZY_EXTRA", "all")
+LAZY_EXTRA = frozenset(al.GATES if _gate in ("1", "all") else [g for g in _gate.split(",") if g in al.GATES])
+
+
+def concrete_operand(value, proxied):
+    toks = ["1" if proxied else "0", str(ac.oid(value)), str(ac.oid(object())) if proxied else "0"]
+    ac.enc_val(value, toks)
+    return toks
+
+
+def concrete_line(name, ml, mr, wrap, exact, delta):
+    """request for the model on operands given as the concrete values equality_test works on after materialising"""
+    d = ac.code_delta(name) if delta is None else delta
+    try:
+        return " ".join(["a", name, "1" if exact else "0", "-", "-", "r"] + ac.enc_val(d, []) +
+                        concrete_operand(ml, wrap[0] == "p") + concrete_operand(mr, wrap[1] == "p"))
+    except ac.Unencodable:
+        return None
+
+
+def lazy_desc(row):
+    return {"how": row["how"], "assertions": list(row["names"]), "l": row["l"], "r": row["r"], "wrap": row["wrap"],
+            "kw": row["kw"], "left": al.describe(row["l"]), "right": al.describe(row["r"])}
+
+
+def lazy_stream(rng, tier, driver=None, res=None):
+    """runs the value-class cases once: real outcomes + oracle verdicts (search) and, with a driver, the model's answers
+    on the materialised operands (correspondence).  -> dict(eq=rows, other=rows, units=[(case, real)], info=...)"""
+    counts = collections.Counter()
+    in_table, outside, missing, untested = al.classify_kinds()
+    eq_rows, requests = al.run_equality(rng, tier, LAZY_EXTRA, counts)
+    other_rows = al.run_other(rng, tier, LAZY_EXTRA, counts)
+    units = [(c, al.run_unit(c)) for c in al.unit_cases(rng, tier, LAZY_EXTRA)]
+    info = {"classes named in the tree's tables": {k: in_table[k] for k in sorted(in_table)},
+            "classes generated besides": outside, "table classes without a recipe": missing,
+            "isinstance-tested classes without a recipe": untested,
+            "equality cases": counts["lazy:definite"] + counts["lazy:oracle-abstains"],
+            "oracle definite": counts["lazy:definite"], "oracle abstains (pairing / order / wrapping only)":
+            counts["lazy:oracle-abstains"], "assertion calls": 2 * len(eq_rows) + len(other_rows),
+            "unit_test tables": len(units), "input families of the open findings that are generated (VERIF_C07_LAZY_EXTRA)": sorted(LAZY_EXTRA),
+            "left out": sorted(set(al.GATES) - LAZY_EXTRA)}
+    out = {"eq": eq_rows, "other": other_rows, "units": units, "info": info}
+    if res is not None:
+        for k, v in counts.items():
+            res.count(k, v)
+    if driver is None or res is None:
+        return out
+    lines, meta = [], []
+    for row, ml, mr in requests:
+        for k, name in enumerate(row["names"]):
+            line = concrete_line(name, ml, mr, row["wrap"], row["kw"].get("exact", False), row["kw"].get("delta"))
+            if line is None:
+                res.count("lazy:unencodable")
+                continue
+            lines.append(line)
+            meta.append((row, k))
+    for (row, k), line, ans in zip(meta, lines, driver.ask(lines)):
+        res.evaluations += 1
+        res.count("assertion:" + row["names"][k])
+        res.count("lazy:model-asked")
+        model = ans.split(" ")[0]
+        if model == "unmodelled":
+            res.count("model-unmodelled")
+            continue
+        real = row["real"][k]
+        if real == "silent":
+            res.nontrivial.add(("lazy", row["names"][k], json.dumps([row["l"], row["r"]], sort_keys=True), row["wrap"]))
+        if model != real:
+            res.disagreements.append({"case": dict(lazy_desc(row), assertion=row["names"][k]), "real": real, "model": model,
+                                      "request": line, "note": "model asked on the operands as equality_test materialises them"})
+    direct = al.direct_equality(rng, tier, LAZY_EXTRA)
+    lines = []
+    for how, x, y, exact, dv, real, (mx, my) in direct:
+        lines.append("e %d %s %s %s" % (exact, ac.enc_val(dv, [])[0], " ".join(ac.enc_val(mx, [])), " ".join(ac.enc_val(my, []))))
+    for (how, x, y, exact, dv, real, _), line, ans in zip(direct, lines, driver.ask(lines)):
+        res.evaluations += 1
+        res.count("equality_test:lazy")
+        if ans == "unmodelled":
+            res.count("equality_test-unmodelled")
+            continue
+        if real == "true":
+            res.nontrivial.add(("lazy-eq", json.dumps([x, y], sort_keys=True), exact))
+        if real != ans:
+            res.disagreements.append({"case": {"equality_test": [al.describe(x), al.describe(y)], "exact": exact, "delta": dv,
+                                               "how": how, "l": x, "r": y}, "real": real, "model": ans, "request": line})
+    return out
+
+
+def lazy_failures(lazy, best, info):
+    """failing inputs among the value-class rows (see assertions_lazy for the oracle)"""
+    info["value_classes"] = lazy["info"]
+
+    families = info["value_classes"].setdefault("failures on inputs of a known family", {})
+
+    def offer(sig, size, what, replay, family=None):
+        if family:
+            # an input of one of the open findings' families: the family is the whole signature (shown once)
+            families[family] = families.get(family, 0) + 1
+            sig = {"family": family}
+        key = json.dumps(sig, sort_keys=True)
+        if key not in best or size < best[key][0]:
+            best[key] = (size, Failure(sig, what, replay))
+
+    def opts(kw):
+        return "".join(", %s=%r" % (k, kw[k]) for k in ("exact", "delta") if kw.get(k) not in (None, False))
+
+    groups = {}
+    for row in lazy["eq"]:
+        info["evaluations"] += 2
+        if row["want"] == al.UNEVALUABLE:
+            info["value_classes"]["python == raises (nothing demanded)"] = \
+                info["value_classes"].get("python == raises (nothing demanded)", 0) + 1
+            continue
+        groups.setdefault(row["case"], []).append(row)
+        pos, neg = row["real"]
+        l, r, wrap = row["l"], row["r"], row["wrap"]
+        d = lazy_desc(row)
+        size = len(json.dumps([l, r]))
+        text = "(%s, %s%s) [%s]" % (al.describe(l), al.describe(r), opts(row["kw"]), wrap)
+        if row["want"] is not None:
+            k = al.kind_of_failure(pos, neg, row["want"])
+            if k:
+                name = row["names"][1 if k[0] else 0]
+                sig = {"assertion": name, "kind": k[1], "left": al.label(l), "right": al.label(r), "wrap": wrap}
+                offer(sig, size, "%s%s is %s but the operands are %s under every reading of == (Python's own, and the lazy "
+                      "objects standing for their elements)" % (name, text, row["real"][1 if k[0] else 0],
+                                                                "equal" if row["want"] else "not equal"),
+                      {"lazy_case": d, "real": list(row["real"]), "expected": "equal" if row["want"] else "not equal"},
+                      al.family_of(l, r, wrap))
+        elif sorted(row["real"]) != ["fires", "silent"]:
+            kind = ("both-fail" if row["real"] == ("fires", "fires") else
+                    "both-pass" if row["real"] == ("silent", "silent") else "escapes")
+            sig = {"assertion": row["names"][0], "kind": kind + "-with-negation", "left": al.label(l), "right": al.label(r),
+                   "wrap": wrap}
+            if al.keys_ambiguous(l, r, row["kw"].get("exact", False), row["kw"].get("delta")):
+                # the open finding of the main stream (same signature): dict keys matched approximately, looked up exactly
+                sig = {"assertion": row["names"][0].replace("almost_", ""), "kind": kind + "-with-negation",
+                       "operands": "dicts whose key sets are equal only approximately"}
+            offer(sig, size, "%s%s is %s and %s is %s: they must not both pass or both fail" % (
+                row["names"][0], text, pos, row["names"][1], neg),
+                {"lazy_case": d, "real": list(row["real"]), "expected": "exactly one of the two silent"},
+                al.family_of(l, r, wrap))
+    mirror = {"rr": "rr", "pp": "pp", "pr": "rp", "rp": "pr"}
+    for rows in groups.values():
+        by = {(r["order"], r["wrap"]): r for r in rows}
+        for (order, wrap), row in by.items():
+            other = by.get(("rl", mirror[wrap])) if order == "lr" else None
+            if other is not None and other["real"] != row["real"]:
+                sig = {"assertion": row["names"][0], "kind": "order-dependent", "left": al.label(row["l"]),
+                       "right": al.label(row["r"]), "wrap": wrap}
+                offer(sig, len(json.dumps([row["l"], row["r"]])),
+                      "%s / %s on (%s, %s) [%s] are %s, with the operands swapped %s: equality must not depend on the "
+                      "argument order" % (row["names"][0], row["names"][1], al.describe(row["l"]), al.describe(row["r"]), wrap,
+                                          list(row["real"]), list(other["real"])),
+                      {"lazy_case": lazy_desc(row), "real": list(row["real"]), "swapped": list(other["real"]),
+                       "expected": "the same outcomes in both orders"}, al.family_of(row["l"], row["r"], wrap))
+            base = by.get((order, "rr"))
+            if base is not None and base["real"] != row["real"]:
+                sig = {"assertion": row["names"][0], "kind": "wrapping-dependent", "left": al.label(row["l"]),
+                       "right": al.label(row["r"]), "wrap": wrap}
+                offer(sig, len(json.dumps([row["l"], row["r"]])),
+                      "%s / %s on (%s, %s) are %s with raw operands and %s with wrapping %s: the outcome must not depend on "
+                      "whether an operand is proxied" % (row["names"][0], row["names"][1], al.describe(row["l"]),
+                                                         al.describe(row["r"]), list(base["real"]), list(row["real"]), wrap),
+                      {"lazy_case": lazy_desc(row), "real": list(row["real"]), "raw": list(base["real"]),
+                       "expected": "the same outcomes in every wrapping"}, al.family_of(row["l"], row["r"], wrap))
+    for row in lazy["other"]:
+        info["evaluations"] += 1
+        if row["real"] != row["want"]:
+            real = row["real"]
+            kind = ("escapes" if real.startswith("escapes") else "inconsistent" if real == "inconsistent" else
+                    "false-pass" if real == "silent" else "false-fail")
+            sig = {"assertion": row["a"], "kind": kind, "left": al.label(row["l"]), "wrap": row["wrap"]}
+            if row["r"] is not None:
+                sig["right"] = al.label(row["r"])
+            offer(sig, len(json.dumps([row["l"], row["r"]])),
+                  "%s(%s%s) [%s] is %s but the Python relation %s" % (
+                      row["a"], al.describe(row["l"]), "" if row["r"] is None else ", " + al.describe(row["r"]), row["wrap"],
+                      real, "holds" if row["want"] == "silent" else "does not hold / cannot be evaluated"),
+                  {"lazy_other": {"a": row["a"], "l": row["l"], "r": row["r"], "wrap": row["wrap"]}, "real": real,
+                   "expected": row["want"]})
+    for case, real in lazy["units"]:
+        info["evaluations"] += 1
+        want = al.oracle_unit(case)
+        if want is None:
+            info["unit_oracle_abstained"] = info.get("unit_oracle_abstained", 0) + 1
+            continue
+        if real != want:
+            sig = {"unit_test": "escapes" if "error" in real else
+                   ("verdict" if real.get("passed") != want["passed"] else
+                    ("count" if (real.get("succ"), real.get("total")) != (want["succ"], want["total"]) else "report")),
+                   "operands": "lazy"}
+            offer(sig, len(json.dumps(case)), "unit_test on %d cases with lazy values %s returned %s, expected %s" % (
+                len(case["rows"]), [(al.describe(a), al.describe(b)) for _, a, b in case["rows"]], real, want),
+                {"lazy_unit": case, "real": real, "expected": want},
+                next((f for f in (al.family_of(a, b, "pr") for _, a, b in case["rows"]) if f), None))
 
 
 # --------------------------------------------------------------------------------------
@@ -1076,7 +1299,11 @@ def search(rng, tier, broken, corr):
                     "=> must fail; relation holds => must be silent; for an operand made in a history the text it stands "
                     "for is the text its own execution wrote, for the Sandbox everything since the last clear_output - both "
                     "computed from the steps), for every correspondence case, the unit_test tables "
-                    "(success iff all cases pass, true pass count) and a table of assert_type / assert_not_type cases",
+                    "(success iff all cases pass, true pass count), a table of assert_type / assert_not_type cases, and the "
+                    "value-class stream (lazy / view / iterator-like operands and the other classes equality_test has a branch "
+                    "for: a verdict is demanded where Python's own == and 'a lazy object stands for its elements' agree, "
+                    "otherwise pairing with the negation, order independence and wrapping independence; every other "
+                    "assertion family against the plain Python relation on fresh objects; unit_test with lazy values)",
             "evaluations": 0, "distinct_nontrivial": 0, "samples": []}
     best = {}
     results = getattr(corr, "results", None)
@@ -1175,6 +1402,16 @@ def search(rng, tier, broken, corr):
                 best[key] = (5000, Failure(sig, "%s(%s) [%s] is %s, expected %s" % (name, label, w, real, want),
                                            {"class_type_case": label, "wrap": w, "assertion": name, "real": real,
                                             "expected": want}))
+    # operand value classes beyond the plain containers
+    if LAZY:
+        lazy = getattr(corr, "lazy", None)
+        if lazy is None:
+            lazy = lazy_stream(rng, tier)
+            ag.end_history()
+            ac.renew()
+        lazy_failures(lazy, best, info)
+    else:
+        info["value_classes"] = "not visited (switched off by VERIF_C07_LAZY=0)"
     # clear_sandbox() histories (last: they invalidate every proxy made so far)
     if HIST_CLEAR_SANDBOX:
         for d, real, want in clear_sandbox_stream():
@@ -1195,7 +1432,17 @@ def search(rng, tier, broken, corr):
     info["distinct_nontrivial"] = len(nt)
     info["samples"] = [json.loads(x) for x in list(nt)[:2]]
     failures = [f for _, f in sorted(best.values(), key=lambda x: x[0])]
-    return failures[:12], info
+    # one failure per root cause first: signatures that differ only in the wrapping come after the others
+    seen, first, rest = set(), [], []
+    for f in failures:
+        k = json.dumps({x: y for x, y in f.signature.items() if x != "wrap"}, sort_keys=True)
+        (rest if k in seen else first).append(f)
+        seen.add(k)
+    # listed open findings are shown (once each) without using up the places of other failures
+    known = {canon(k["signature"]) for k in load_known_findings("C07")}
+    ordered = first + rest
+    return ([f for f in ordered if canon(f.signature) not in known][:12] +
+            [f for f in ordered if canon(f.signature) in known]), info
 
 
 def clear_sandbox_stream():
@@ -1270,6 +1517,64 @@ def replay(payload):
         if line and drv.available:
             print("model    :", drv.ask([line])[0])
         return 0 if real == want else 1
+    if "lazy_case" in rp:
+        ac.setup()
+        d = rp["lazy_case"]
+        kw = d.get("kw", {})
+        print("case     : %s / %s (%s, %s) [%s] %s" % (d["assertions"][0], d["assertions"][1], al.describe(d["l"]),
+                                                       al.describe(d["r"]), d["wrap"], kw or ""))
+        print("recipes  :", json.dumps([d["l"], d["r"]]))
+        real = al.run_pair(d["l"], d["r"], d["wrap"], kw, tuple(d["assertions"]))
+        print("real     :", dict(zip(d["assertions"], real)))
+        try:
+            rd = al.readings(d["l"], d["r"], kw.get("exact", False), kw.get("delta"))
+        except ac.Ambiguous:
+            rd = "ambiguous (dict keys equal only approximately)"
+        except TypeError as e:
+            rd = "Python's == raises: %s" % e
+        print("readings :", rd)
+        want = al.want_equal(d["l"], d["r"], kw.get("exact", False), kw.get("delta"))
+        if want == al.UNEVALUABLE:
+            print("property : Python's own == raises on these operands; nothing is demanded")
+            return 0
+        swapped = al.run_pair(d["r"], d["l"], d["wrap"][::-1], kw, tuple(d["assertions"]))
+        raw = al.run_pair(d["l"], d["r"], "rr", kw, tuple(d["assertions"]))
+        print("swapped  :", dict(zip(d["assertions"], swapped)), "   raw operands:", dict(zip(d["assertions"], raw)))
+        if want is None:
+            print("property : the readings differ, the oracle abstains about the verdict; the two assertions must not both "
+                  "pass or both fail, and the outcome must depend neither on the order nor on the wrapping")
+            return 0 if sorted(real) == ["fires", "silent"] and swapped == real and raw == real else 1
+        print("property : the operands are %s: %s must be %s, %s must be %s" % (
+            "equal" if want else "not equal", d["assertions"][0], "silent" if want else "fires", d["assertions"][1],
+            "fires" if want else "silent"))
+        return 0 if al.kind_of_failure(real[0], real[1], want) is None else 1
+    if "lazy_other" in rp:
+        ac.setup()
+        d = rp["lazy_other"]
+        env = {}
+        lo = al.build(d["l"], env)
+        ro = None if d["r"] is None else al.build(d["r"], env)
+        want = "silent" if al.py_relation(d["a"], lo, ro) else "fires"
+        env = {}
+        lo = al.build(d["l"], env)
+        a = al.proxy(lo) if d["wrap"][0] == "p" else lo
+        b = None
+        if d["r"] is not None:
+            ro = al.build(d["r"], env)
+            b = (a if ro is lo and d["wrap"][0] == "p" else al.proxy(ro, "r")) if d["wrap"][1] == "p" else ro
+        real = ac.run_real(d["a"], a, b)
+        print("case     : %s(%s%s) [%s]" % (d["a"], al.describe(d["l"]), "" if d["r"] is None else ", " + al.describe(d["r"]),
+                                          d["wrap"]))
+        print("real     :", real)
+        print("property :", want, "(the plain Python relation on fresh raw objects)")
+        return 0 if real == want else 1
+    if "lazy_unit" in rp:
+        ac.setup()
+        real = al.run_unit(rp["lazy_unit"])
+        print("case     :", [(al.describe(a), al.describe(b)) for _, a, b in rp["lazy_unit"]["rows"]])
+        print("real     :", real)
+        print("property :", al.oracle_unit(rp["lazy_unit"]))
+        return 0 if real == al.oracle_unit(rp["lazy_unit"]) else 1
     if "type_case" in rp:
         ac.setup()
         v, t, conforms = TYPE_CASES[rp["type_case"]]
